@@ -97,12 +97,18 @@ func runC07(r *Run) {
 	r.Floor("C07.R2", 5)
 	r.Floor("C07.R3", 3)
 	r.Floor("C07.R4", 1)
+	r.Floor("C07.R5", 2)
+	r.Floor("C07.R6", 1)
+	r.RuleDoc("C07.R5", "the Canary-Failed verdict is reset to False only for the replica set that has become active; the canary strategy writes it from IsFailed")
+	r.RuleDoc("C07.R6", "a failed canary is never promoted by elapsed time: status.activeReplicaSet stays unchanged")
 	r.NotCovered("recovery from every crash point as a history property (only the write order, the guard and the recomputation inputs are decided); that the active replica set repopulates the former canary nodes (follows from C04.R2 once status.canary is nil); wall-clock arithmetic beyond the retention constant; the validated-and-failed corner (the decision then returns the up-to-date replica set itself, whose template is already the spec's)")
 
 	site := findDecision(r, "C07.R1")
 	if site == nil || !assignRoles(r, "C07.R1", site) {
 		return
 	}
+	c07FailedNotPromoted(r, site)
+	failedConditionWrites(r, "C07.R5")
 	_, reach := edsReconcile(r)
 	c := &c07Ctx{r: r, site: site, reach: reach}
 	for _, fn := range sortedFuncs(reach) {
@@ -846,4 +852,44 @@ func c07IsFailureTime(v ssa.Value, ers *ssa.Parameter) bool {
 		return calleeName(&root.Call) == pkgERSCond+".GetExtendedDaemonSetReplicaSetStatusCondition" && statusOfErs(root.Call.Args[0])
 	}
 	return false
+}
+
+// c07FailedNotPromoted implements R6: status.activeReplicaSet stays unchanged for a failed canary —
+// every path of the promotion decision that returns the up-to-date replica set without
+// active==upToDate / active==nil / no canary strategy / explicit validation carries failed=false
+// (the failed reader applied to the up-to-date replica set).
+func c07FailedNotPromoted(r *Run, site *decisionSite) {
+	fn := site.decision
+	paths, _, ok := funcPaths(fn, 5000)
+	r.paths += len(paths)
+	if !ok {
+		r.Undecided("C07.R6", "failed canary never becomes the active replica set", r.Prog.Pos(fn.Pos()), shortFunc(fn), "path cap exceeded")
+		return
+	}
+	utd := site.roles["upToDate"]
+	okAll, detail, n := true, "", 0
+	for _, p := range paths {
+		ret := returnOf(p.Blocks[len(p.Blocks)-1])
+		if unwrap(p.Resolve(ret.Results[0])) != ssa.Value(utd) {
+			continue
+		}
+		var notes []string
+		a := c05Classify(site, p, &notes)
+		if is(a.eqActive, true) || is(a.activeNil, true) || is(a.noCanary, true) || is(a.valid, true) {
+			continue
+		}
+		n++
+		if !is(a.failed, false) && okAll {
+			okAll = false
+			detail = "a path returns the up-to-date replica set without explicit validation and without failed=false: " + describeAtoms(a)
+			if len(notes) > 0 {
+				detail += "; " + strings.Join(notes, "; ")
+			}
+		}
+	}
+	o := r.Check("C07.R6", "failed canary never becomes the active replica set", r.Prog.Pos(fn.Pos()), shortFunc(fn),
+		"the promotion decision returns the up-to-date replica set by elapsed time only under IsCanaryDeploymentFailed(up-to-date replica set)=false, so status.activeReplicaSet and the restored template stay those of the active replica set", okAll, detail)
+	if n == 0 {
+		o.Trivial = true
+	}
 }
